@@ -156,6 +156,85 @@ theorem fault_never_success_partial (H : List UInt8 → List UInt8) (bsS bsR : N
   · exact doomed_never_success H data bsS j hlen _ (wrongSid_doomed H bsS bsR hash data j hlen hblk) cont hc
   · exact doomed_never_success H data bsS j hlen _ (wrongSender_doomed H bsS bsR hash data j hlen hblk) cont hc
 
+/-- **… but a corruption error: after a lost, reordered or mislabelled block, or a stream cut short, the receiving job
+FINISHES with `FileCorruptError`** once the honest remainder of the exchange has been delivered (two more deliveries
+are enough: the refused next request, then the sender's `<close/>`).  For every file (ANY number of blocks), negotiated
+block size, announced hash or none, true size announced, every data block `j`, and every `n ≥ 2`.
+Which error where: the RECEIVING job always ends with `FileCorruptError` (the byte count is short when `<close/>`
+arrives) — it never uses `ProtocolError` on the in-band path; the SENDING job ends with `ProtocolError` when it got an
+error response (`drop` / `swap` with a following block, `wrongSid`, `earlyClose`) and with `NoError` when the lost
+block was the last one and it had already been told it arrived. -/
+theorem fault_then_honest_reports_corruption (H : List UInt8 → List UInt8) (bsS bsR : Nat) (hash : Option (List UInt8))
+    (data : List UInt8) (hb : 0 < bsS) (hle : bsS ≤ bsR) (j : Nat) (hblk : j * bsS < data.length)
+    (f : Op) (hf : f ∈ [Op.drop, .swap, .earlyClose, .wrongSid]) (n : Nat) (hn : 2 ≤ n) :
+    let st := (run H (init bsS bsR data.length hash data) (honest (j + 1) ++ f :: honest n)).1
+    st.r.state = .finished ∧ st.r.error = .corrupt ∧ st.pending = none ∧ st.s.state = .finished := by
+  intro st
+  have e : st = (run H (step H (atBlock bsS bsR data.length hash data j) f).1 (honest n)).1 := by
+    show (run H _ (honest (j + 1) ++ f :: honest n)).1 = _
+    rw [run_append, honest_prefix H bsS bsR data.length hash data hb hle j hblk]
+    rfl
+  simp only [List.mem_cons, List.mem_nil_iff, or_false] at hf
+  have key : Reported (run H (step H (atBlock bsS bsR data.length hash data j) f).1 (honest 2)).1 := by
+    rcases hf with rfl | rfl | rfl | rfl
+    · exact drop_reports H bsS bsR hash data j hb hblk
+    · exact swap_reports H bsS bsR hash data j hb hblk
+    · exact earlyClose_reports H bsS bsR hash data j hblk
+    · exact wrongSid_reports H bsS bsR hash data j hblk
+  rw [e, run_honest_settled H _ 2 key.2.2.1 n hn]
+  exact key
+
+/-- **Defect (no timeout): a block — or the answer to it — that is lost on a stream that stays up is never reported.**
+It is NOT true that after a lost data block the receiving job eventually finishes: with nothing else arriving both
+jobs stay in `TransferState` for ever (the library has no timer on the in-band path; recorded finding
+`C19:lost-stanza-hangs-forever`).  Witness: one byte, block size 1, the only block lost. -/
+theorem C19_defect_lost_block_never_reported :
+    ¬ ∀ (H : List UInt8 → List UInt8) (bsS bsR : Nat) (hash : Option (List UInt8)) (data : List UInt8) (j : Nat),
+      0 < bsS → bsS ≤ bsR → j * bsS < data.length →
+      ∃ n, (run H (init bsS bsR data.length hash data) (honest (j + 1) ++ .lose :: honest n)).1.r.state = .finished := by
+  intro h
+  obtain ⟨n, hn⟩ := h (fun _ => []) 1 1 none [0] 0 (by decide) (by decide) (by decide)
+  rw [run_append, honest_prefix (fun _ => []) 1 1 1 none [0] (by decide) (by decide) 0 (by decide)] at hn
+  have hi := lose_idle (fun _ => []) 1 1 none [0] 0
+  have e : (run (fun _ => []) (atBlock 1 1 1 none [0] 0) (.lose :: honest n)).1 =
+      (step (fun _ => []) (atBlock 1 1 1 none [0] 0) .lose).1 := by
+    show (run _ (step _ _ .lose).1 (honest n)).1 = _
+    exact run_honest_idle _ _ hi.1 n
+  have hn' : (run (fun _ => []) (atBlock 1 1 [(0 : UInt8)].length none [0] 0) (.lose :: honest n)).1.r.state = .finished := hn
+  rw [show [(0 : UInt8)].length = 1 from rfl, e, hi.2.1] at hn'
+  cases hn'
+
+/-- **The hang in general, and what ends it.**  For every file, block size and data block `j`: if block `j` is lost
+without any answer (`lose`), or delivered under another sender JID so that the answer goes elsewhere (`wrongSender`),
+then after ANY number of further honest deliveries both jobs are still in `TransferState` with nothing in the channel;
+and as soon as the stream is closed (`<close/>` arrives) the receiving job finishes with `FileCorruptError`. -/
+theorem lost_block_without_answer_hangs_until_closed (H : List UInt8 → List UInt8) (bsS bsR : Nat) (hash : Option (List UInt8))
+    (data : List UInt8) (hb : 0 < bsS) (hle : bsS ≤ bsR) (j : Nat) (hblk : j * bsS < data.length) :
+    (∀ f ∈ [Op.lose, .wrongSender], ∀ n,
+      let st := (run H (init bsS bsR data.length hash data) (honest (j + 1) ++ f :: honest n)).1
+      st.r.state = .transfer ∧ st.s.state = .transfer ∧ st.pending = none) ∧
+    (let st := (run H (init bsS bsR data.length hash data) (honest (j + 1) ++ [.lose, .earlyClose])).1
+     st.r.state = .finished ∧ st.r.error = .corrupt ∧ st.pending = none) := by
+  constructor
+  · intro f hf n st
+    have e : st = (run H (step H (atBlock bsS bsR data.length hash data j) f).1 (honest n)).1 := by
+      show (run H _ (honest (j + 1) ++ f :: honest n)).1 = _
+      rw [run_append, honest_prefix H bsS bsR data.length hash data hb hle j hblk]
+      rfl
+    simp only [List.mem_cons, List.mem_nil_iff, or_false] at hf
+    rcases hf with rfl | rfl
+    · have hi := lose_idle H bsS bsR hash data j
+      rw [e, run_honest_idle H _ hi.1 n]; exact ⟨hi.2.1, hi.2.2, hi.1⟩
+    · have hi := wrongSender_idle H bsS bsR hash data j
+      rw [e, run_honest_idle H _ hi.1 n]; exact ⟨hi.2.1, hi.2.2, hi.1⟩
+  · intro st
+    have e : st = (step H (step H (atBlock bsS bsR data.length hash data j) .lose).1 .earlyClose).1 := by
+      show (run H _ (honest (j + 1) ++ [.lose, .earlyClose])).1 = _
+      rw [run_append, honest_prefix H bsS bsR data.length hash data hb hle j hblk]
+      rfl
+    rw [e]
+    exact lose_close_reports H bsS bsR hash data j hblk
+
 /-- **An altered block is never reported as success — when the offer carried the hash.**
 For every file (any number of blocks), block sizes, data block `j`, bit position, and ANY continuation whatsoever
 (even forging): if one bit of block `j` is flipped in transit, the receiving job does not report success, provided
@@ -180,6 +259,34 @@ theorem altered_block_never_success (H : List UInt8 → List UInt8) (bsS bsR siz
   exact altered_prefix_ne data (j * bsS) bsS _ t (by simp)
     (flipBit_ne _ bit (take_drop_ne_nil data (j * bsS) bsS hblk hb)) hid'
 
+/-- **… but a corruption error (altered block, hash announced).**  After the altered block the exchange runs to its end
+(`data.length + 2` further deliveries are always enough) and the receiving job FINISHES with `FileCorruptError`; for
+every file of any length, block sizes, block `j`, bit, under the same collision hypothesis. -/
+theorem altered_block_reports_corruption (H : List UInt8 → List UInt8) (bsS bsR size : Nat) (data : List UInt8)
+    (hb : 0 < bsS) (hle : bsS ≤ bsR)
+    (j : Nat) (hblk : j * bsS < data.length) (bit : Nat) (n : Nat) (hn : data.length + 2 ≤ n)
+    (hcoll : H (run H (init bsS bsR size (some (H data)) data) (honest (j + 1) ++ .flip bit :: honest n)).1.r.fed = H data →
+             (run H (init bsS bsR size (some (H data)) data) (honest (j + 1) ++ .flip bit :: honest n)).1.r.fed = data) :
+    let st := (run H (init bsS bsR size (some (H data)) data) (honest (j + 1) ++ .flip bit :: honest n)).1
+    st.r.state = .finished ∧ st.r.error = .corrupt := by
+  intro st
+  have hns := altered_block_never_success H bsS bsR size data hb hle j hblk bit (honest n) hcoll
+  have hok : REok st.r := run_r_inv H REok (recv_REok H) _ _ (Or.inl rfl)
+  have e : st = (run H (step H (atBlock bsS bsR size (some (H data)) data j) (.flip bit)).1 (honest n)).1 := by
+    show (run H _ (honest (j + 1) ++ .flip bit :: honest n)).1 = _
+    rw [run_append, honest_prefix H bsS bsR size (some (H data)) data hb hle j hblk]
+    rfl
+  have hfs := flip_sync H bsS bsR (some (H data)) data j size hb bit
+  have hfin : st.r.state = .finished := by
+    rw [e]
+    rcases hfs.1 with hs | hc
+    · exact (sync_finishes H data.length _ (by rw [hfs.2.1]; exact hb) hs hfs.2.2 n hn).1
+    · exact (closing_finishes H _ hc n (by omega)).1
+  refine ⟨hfin, ?_⟩
+  rcases hok with hnone | hc
+  · exact absurd ⟨hfin, hnone⟩ hns
+  · exact hc
+
 /-- **Defect / protocol limit (no hash announced; recorded finding `C19:nohash-altered-accepted`).** Without an announced hash the same statement is FALSE: a file
 of one byte `00`, block size 1, bit 0 of the only block flipped — the receiver reports success holding `01`.
 (`checkData` compares the hash only "if the offer carried one"; XEP-0096 makes it optional.) -/
@@ -189,6 +296,33 @@ theorem C19_defect_nohash_altered_accepted :
       ¬ (run H (init bsS bsR data.length none data) (honest (j + 1) ++ .flip bit :: cont)).1.r.success := by
   intro h
   exact h (fun _ => []) 1 1 [0] 0 0 [.deliver] (by decide) (by decide) (by decide) (by decide)
+
+/-- **Defect / protocol limit (neither size nor hash announced; recorded finding
+`C19:nosize-nohash-truncated-accepted`).**  `fault_then_honest_reports_corruption` needs the size in the offer: when the
+offer carries neither size nor hash (a source of unknown length — the sending side omits `size` when it is 0 and has no
+hash for sequential devices), a stream cut short is reported as SUCCESS with a truncated file.  Witness: two bytes,
+block size 1, `<close/>` arriving after the first block. -/
+theorem C19_defect_nosize_nohash_truncated_accepted :
+    ¬ ∀ (H : List UInt8 → List UInt8) (bsS bsR : Nat) (data : List UInt8) (j : Nat),
+      0 < bsS → bsS ≤ bsR → j * bsS < data.length →
+      ¬ (run H (init bsS bsR 0 none data) (honest (j + 1) ++ [.earlyClose])).1.r.success := by
+  intro h
+  exact h (fun _ => []) 1 1 [0, 1] 1 (by decide) (by decide) (by decide) (by decide)
+
+/-- **Defect (short write, no size announced; recorded finding `C19:nosize-short-write-accepted`).**  The hypothesis
+`hsz` of `success_implies_identical_bytes` cannot be dropped: `writeData` hashes the bytes it OFFERED to the device, so
+with the hash announced but no size, a device that takes one byte per `write()` ends with success holding half the
+file.  Witness: `01 02`, block size 2, hash = identity. -/
+theorem C19_defect_nosize_short_write_accepted :
+    ¬ ∀ (H : List UInt8 → List UInt8) (dev : Dev) (bsS bsR : Nat) (data : List UInt8) (ops : List Op),
+      (H (run H (initDev dev bsS bsR 0 (some (H data)) data) ops).1.r.fed = H data →
+        (run H (initDev dev bsS bsR 0 (some (H data)) data) ops).1.r.fed = data) →
+      (run H (initDev dev bsS bsR 0 (some (H data)) data) ops).1.r.success →
+      (run H (initDev dev bsS bsR 0 (some (H data)) data) ops).1.r.acc = data := by
+  intro h
+  have := h id (.perWrite 1) 2 2 [1, 2] (honest 3) (by intro hh; exact hh) (by decide)
+  revert this
+  decide
 
 /-- **A duplicated block is refused and harmless.**  For every file, block sizes and data block `j`: delivering
 block `j` twice leaves both jobs and the channel in exactly the state of delivering it once; the second copy is
@@ -206,6 +340,40 @@ theorem duplicate_is_refused_and_harmless (H : List UInt8 → List UInt8) (bsS b
   rw [this]
   obtain ⟨h1, h2, h3⟩ := dup_eq_deliver H bsS bsR size hash data j
   exact ⟨h1, by rw [h2]; rfl, h3⟩
+
+/-! ## The sending job -/
+
+/-- **The sending job reports success only after it has read its device to the end**, whatever the channel, the peer and
+third parties do (every op list, including forged, stale, duplicated and foreign responses and a `<close/>` from the
+peer). -/
+theorem sender_success_implies_all_read (H : List UInt8 → List UInt8) (dev : Dev) (bsS bsR size : Nat)
+    (hash : Option (List UInt8)) (data : List UInt8) (hb : 0 < bsS) (ops : List Op) :
+    (run H (initDev dev bsS bsR size hash data) ops).1.s.success →
+    (run H (initDev dev bsS bsR size hash data) ops).1.s.rest = [] := by
+  intro hs
+  have hd := run_s_inv H (SDone bsS) (sender_SDone bsS) ops (initDev dev bsS bsR size hash data)
+    ⟨rfl, by intro hf; simp [initDev] at hf⟩
+  have := hd.2 hs.1 hs.2
+  rcases List.take_eq_nil_iff.mp this with h0 | h0
+  · omega
+  · exact h0
+
+/-- **An error response of the peer to the request in flight ends the sending job with `ProtocolError`** (and a
+`<close/>` goes out); **responses from somebody else, or to an older request, are ignored.** -/
+theorem sender_reacts_to_peer_only (s : Send) (hs : s.state ≠ .finished) (c : Cond) (rep : Reply) :
+    ((sender s { id := s.requestId, to := 0, err := some c }).1.state = .finished ∧
+     (sender s { id := s.requestId, to := 0, err := some c }).1.error = .protocol ∧
+     ((sender s { id := s.requestId, to := 0, err := some c }).2.map (·.kind)) = some .close) ∧
+    ((rep.origin ≠ 0 ∨ rep.id ≠ s.requestId) → sender s rep = (s, none)) := by
+  constructor
+  · simp [sender, hs, Send.terminate]
+  · intro h
+    unfold sender
+    rcases h with h | h
+    · simp [h]
+    · by_cases h0 : rep.to ≠ 0 ∨ rep.origin ≠ 0
+      · simp [h0]
+      · simp [h0, h]
 
 /-! ## SOCKS5 byte stream (no sequence numbers; stream-host / proxy negotiation outside the model) -/
 
